@@ -1426,6 +1426,11 @@ def sub_hist(case):
                     nt.append(tag)
                 lab = '%s:%s' % (method, (label or 'dev').split(':')[0])
                 outs[lab] = outs.get(lab, 0) + 1
+                if not dev and case['family'] in ('addr', 'bal') and ev[0] == 'Q':
+                    rdev, rdetail = judge_address_records(srv, model, c, ('Y', 'W'))
+                    if rdev:
+                        dev, detail = rdev, rdetail
+                        method = 'after_' + method
                 if dev:
                     d = {'family': case['family'], 'cfg': cfg, 'net': net, 'history': hist[:step + 1],
                          'clock': E.clock, 'observed': _obs_json(obs),
@@ -1441,6 +1446,36 @@ def sub_hist(case):
             env.remove_db(db)
     return {'devs': devs.list(), 'n': n, 'nt': nt, 'out': outs, 'states': sorted(states), 'trans': n,
             'traces': len(case['hists'])}
+
+
+def judge_address_records(srv, model, c, addresses):
+    """The cached per-address summary (what getcacheaddressinfo / the cache path of getbalance serve) must hold
+    figures that a provider reported for that address or that follow from the stored provider answers: the
+    balance is unknown (falsy) or the balance of the provider chain or a stored getbalance answer; n_utxos is
+    unknown or the number of unspent outputs; n_txs is unknown or the number of transactions of the address."""
+    for name in addresses:
+        address = getattr(c, name)
+        try:
+            info = srv.getcacheaddressinfo(address)
+        except Exception as e:
+            return 'getcacheaddressinfo|raises_%s' % type(e).__name__, {'address': name}
+        bal = info.get('balance')
+        adm = set([chain_balance(c, address)]) | set(model.bal.get(address, ()))
+        if bal and bal not in adm:
+            utx = [u[2] for u in addr_utxos(c, address)]
+            partial = any(bal == sum(utx[i:]) for i in range(1, len(utx)))
+            return 'cached_address_record|%s' % ('balance_is_partial_sum_of_unspent_outputs' if partial else
+                                                  'balance_no_provider_reported_nor_stored'), \
+                {'address': name, 'info': {k: v for k, v in info.items() if k != 'address'}, 'admissible': sorted(adm)}
+        if info.get('n_utxos') is not None and info['n_utxos'] != len(addr_utxos(c, address)):
+            return 'cached_address_record|n_utxos_differs_from_provider_answers', \
+                {'address': name, 'info': {k: v for k, v in info.items() if k != 'address'},
+                 'unspent_outputs': len(addr_utxos(c, address))}
+        if info.get('n_txs') is not None and info['n_txs'] != len(addr_history(c, address)):
+            return 'cached_address_record|n_txs_differs_from_provider_answers', \
+                {'address': name, 'info': {k: v for k, v in info.items() if k != 'address'},
+                 'transactions': len(addr_history(c, address))}
+    return None, None
 
 
 def jh(obj):
@@ -1461,7 +1496,7 @@ def hist_query(srv, model, net, c, method, key, health, outc, order, maxp, maxe,
     elif method == 'gettransactions':
         args = (getattr(c, key[0]), '', int(key[1:]))
     elif method == 'getutxos':
-        args = (getattr(c, key),)
+        args = (getattr(c, key[0]),) if len(key) == 1 else (getattr(c, key[0]), '', int(key[1:]))
     elif method == 'getbalance':
         args = ([getattr(c, key)],)
     else:
@@ -1567,8 +1602,10 @@ def hist_query(srv, model, net, c, method, key, health, outc, order, maxp, maxe,
             got = [[u['txid'], u['output_n'], u['value']] for u in val]
         except Exception:
             return 'dev', 'list|not_a_list_of_utxos', {}, obs
-        if got != exp:
-            detail = {'expected': exp, 'got': got}
+        limit = args[2] if len(args) > 2 else 20
+        # (with a limit: a prefix of the unspent outputs, at least `limit` of them when there are that many)
+        if got != exp and not (got == exp[:len(got)] and len(got) >= min(limit, len(exp))):
+            detail = {'expected': exp, 'got': got, 'limit': limit}
             if len(set(map(tuple, got))) < len(got):
                 return 'dev', 'list|duplicate_utxos', detail, obs
             if all(g in exp for g in got):
@@ -1683,6 +1720,15 @@ REDUCED = {
     'addr_quick': [Q('gettransactions', 'X2', 'H'), Q('gettransactions', 'Y20', 'F'), Q('gettransactions', 'X20', 'H'),
                    Q('gettransactions', 'X20', 'D'), Q('getutxos', 'Y', 'H')],
 }
+
+
+# one address with two unspent outputs (Y: TA:0 and TD:0), block count constant unless a T event is present:
+# every order of "page through the utxos", "whole utxo list", "history", "balance"
+FAMILIES['bal'] = [Q('gettransactions', 'Y20', 'H'), Q('getutxos', 'Y1', 'H'), Q('getutxos', 'Y', 'H'),
+                   Q('getbalance', 'Y', 'H'), Q('getutxos', 'Y', 'F'), Q('getbalance', 'Y', 'F'),
+                   Q('gettransactions', 'Y20', 'F'), Q('getbalance', 'Y', 'D'), Q('gettransactions', 'Y1', 'H'),
+                   ['R', 'H'], ['T', 61]]
+REDUCED['bal'] = FAMILIES['bal'][:4]
 
 
 def histories(alphabet, length):
@@ -1874,6 +1920,10 @@ def run(ctx):
         if fam == 'vars':
             plan += [('testnet', {'max_errors': 3}, 2)]
         plan += [(NET, {'max_errors': 4}, 3 if q else 4)]
+        if fam == 'bal':
+            plan = [(NET, {}, 2 if q else 3), (NET, {'max_errors': 4}, 4 if q else 5)]
+            if not q:
+                plan.append((NET, {'max_errors': 3}, 3))
         for net, cfg, ln in plan:
             red = cfg == {'max_errors': 4} or (q and net != NET)
             alpha = REDUCED[fam] if red else alphabet
